@@ -505,7 +505,7 @@ ALPHABET_2 = [('S',), ('Sp',), ('B',), ('Bp',), ('P',), ('R',), ('Rp',), ('G',),
 # re-fills the buffer); RS: the sender becomes runnable just after the resume; RP: the buffer
 # fills again before any woken writer has run; N / K: senders of the public API - a notification,
 # a batch of notifications only
-ALPHABET_3 = [('S',), ('Sp',), ('P',), ('R',), ('SR',), ('SpR',), ('RS',), ('RP',), ('G',), ('A25',),
+ALPHABET_3 = [('S',), ('Sp',), ('P',), ('R',), ('SR',), ('SpR',), ('RS',), ('RP',), ('A25',),
               ('N',), ('K',)]
 COMPOSITE = {'SR': ((), 'SR'), 'SpR': ((True,), 'SR'), 'RS': ((), 'RS'), 'RP': ((), 'RP')}
 
